@@ -6,6 +6,11 @@ Operand descriptor (plain data):
     {'kind': 'nd.float' | 'nd.int' | 'nd.complex', 'v': ndarray}
     {'kind': 'alias', 'how': 'self' | 'full' | 'T' | 'rev' | 'row' | 'row0'}      (in-place right operand that shares
                                                                                    memory with the left operand)
+    {'kind': 'npx.<class>', 'dt': dtype name, 'v': number[, 'lo': float]}           scalar of an "unusual" NumPy dtype
+    {'kind': 'ndx.<class>', 'dt': dtype name, 'v': ndarray[, 'lo': ndarray]}        ndarray of such a dtype
+        classes: uint (uint8/16/32/64), sint (int8/16/32), bool (bool; scalars also Python bool 'pybool'), float16,
+        longdouble (longdouble / clongdouble; value = longdouble(v) + longdouble(lo), lo below the float64 resolution)
+    optional 'lay' on UTPM and ndarray operands: memory layout of the live array ('C', 'F', 'T', 'strided', 'rev')
 The reference is computed direction by direction: for direction p the UTPM operand contributes the series
 data[:, p] of shape (D,)+shape and a constant contributes (c, 0, 0, ...); NumPy's object-array broadcasting combines
 the two element-wise.  Nothing here knows about algopy's (D,P,...) layout tricks.
@@ -19,6 +24,102 @@ SCALAR_KINDS = ('pyint', 'pyfloat', 'pycomplex', 'np.float64', 'np.float32', 'np
 ARRAY_KINDS = ('nd.float', 'nd.int', 'nd.complex')
 CONST_KINDS = SCALAR_KINDS + ARRAY_KINDS
 COMPLEX_KINDS = ('pycomplex', 'np.complex128', 'nd.complex')
+XCLASSES = ('uint', 'sint', 'bool', 'float16', 'longdouble')
+XSCALAR_KINDS = tuple('npx.' + c for c in XCLASSES)
+XARRAY_KINDS = tuple('ndx.' + c for c in XCLASSES)
+XDTYPES = {'uint': ('uint8', 'uint16', 'uint32', 'uint64'), 'sint': ('int8', 'int16', 'int32'), 'bool': ('bool',),
+           'float16': ('float16',), 'longdouble': ('longdouble', 'clongdouble')}
+
+_TYPES = {'pyint': int, 'pyfloat': float, 'pycomplex': complex, 'np.float64': np.float64, 'np.float32': np.float32,
+          'np.int64': np.int64, 'np.complex128': np.complex128}
+
+
+def is_array_kind(kind):
+    return kind.startswith('nd')
+
+
+def is_const_kind(kind):
+    return kind not in ('utpm', 'alias')
+
+
+def relayout(a, lay):
+    """a fresh array with the values of ``a`` in the requested memory layout (never shares memory with ``a``)"""
+    a = np.asarray(a)
+    if lay in (None, 'C') or a.ndim == 0:
+        return np.array(a)
+    if lay == 'F':
+        return np.asfortranarray(a).copy(order='F')
+    if lay == 'T':
+        # the buffer holds the axes in reversed order (for UTPM data: array axes first, then P, then D)
+        buf = np.ascontiguousarray(a.transpose())
+        return buf.transpose()
+    if lay == 'strided':
+        buf = np.zeros(a.shape[:-1] + (2 * a.shape[-1] + 1,), dtype=a.dtype)
+        view = buf[..., 1::2]
+        view[...] = a
+        return view
+    if lay == 'rev':
+        buf = np.array(a[..., ::-1])
+        return buf[..., ::-1]
+    raise KeyError(lay)
+
+
+def const_value(o):
+    """the live constant handed to algopy: scalar of exactly the named type, or a fresh ndarray (layout 'lay')"""
+    k = o['kind']
+    if k in SCALAR_KINDS:
+        # the kind string fixes the type (descriptors store plain Python numbers)
+        return _TYPES[k](o['v'])
+    if k in ARRAY_KINDS:
+        return relayout(o['v'], o.get('lay'))
+    dt = o['dt']
+    if k.startswith('npx.'):
+        if dt == 'pybool':
+            return bool(o['v'])
+        t = np.dtype(dt).type
+        v = t(o['v'])
+        if 'lo' in o:
+            v = v + np.longdouble(o['lo'])
+            v = t(v)
+        return v
+    if k.startswith('ndx.'):
+        a = np.asarray(o['v']).astype(np.dtype(dt))
+        if 'lo' in o:
+            a = (a + np.asarray(o['lo']).astype(np.longdouble)).astype(np.dtype(dt))
+        return relayout(a, o.get('lay'))
+    raise KeyError(k)
+
+
+def _frac(x):
+    from fractions import Fraction
+    if isinstance(x, (bool, np.bool_)):
+        return Fraction(int(x))
+    if isinstance(x, (int, np.integer)):
+        return Fraction(int(x))
+    n, d = x.as_integer_ratio()        # float, numpy.float16/32/64, numpy.longdouble: exact
+    return Fraction(int(n), int(d))
+
+
+def exact_gq(value):
+    """object ndarray of GQ holding the mathematical value of every element (no rounding through float64)"""
+    from ..oracles import GQ
+    a = np.asarray(value)
+    out = np.empty(a.shape, dtype=object)
+    for idx in np.ndindex(*a.shape):
+        el = a[idx]
+        if a.dtype.kind == 'c':
+            out[idx] = GQ(_frac(el.real), _frac(el.imag))
+        else:
+            out[idx] = GQ(_frac(el))
+    return out
+
+
+def const_big(o):
+    """constant with an element beyond 2**33: float64 arithmetic on it is not exact even for dyadic polynomials"""
+    a = np.asarray(const_value(o))
+    if a.dtype.kind == 'b' or a.size == 0:
+        return False
+    return bool(np.max(np.abs(a.astype(np.clongdouble))) > 2.0 ** 33) or ('lo' in o and bool(np.any(np.asarray(o['lo']) != 0)))
 
 
 def is_utpm(o):
@@ -28,15 +129,17 @@ def is_utpm(o):
 def opd_shape(o):
     if o['kind'] == 'utpm':
         return tuple(o['data'].shape[2:])
-    if o['kind'] in ARRAY_KINDS:
-        return tuple(o['v'].shape)
+    if is_array_kind(o['kind']):
+        return tuple(np.shape(o['v']))
     return ()
 
 
 def opd_is_complex(o):
     if o['kind'] == 'utpm':
         return np.iscomplexobj(o['data'])
-    return o['kind'] in COMPLEX_KINDS
+    if o['kind'] in COMPLEX_KINDS:
+        return True
+    return o.get('dt') == 'clongdouble'
 
 
 def opd_nonconstant(o):
@@ -62,10 +165,10 @@ def series_data(o, p, D):
     """float/complex ndarray (D,)+shape: the series of operand o in direction p (constants: degree zero)"""
     if o['kind'] == 'utpm':
         return o['data'][:, p]
-    c = np.asarray(o['v'])
+    c = np.asarray(const_value(o))
     dt = np.complex128 if c.dtype.kind == 'c' else np.float64
     out = np.zeros((D,) + c.shape, dtype=dt)
-    out[0] = c
+    out[0] = c.astype(dt)
     return out
 
 
@@ -79,7 +182,7 @@ def frac_series(o, p, D):
     """exact series of operand o in direction p; coefficient arrays carry one extra leading axis of size 1"""
     if o['kind'] == 'utpm':
         return _lead1(FracSeries.from_data(o['data'][:, p]))
-    return _lead1(FracSeries.const(o['v'], D))
+    return _lead1(FracSeries.const(exact_gq(const_value(o)), D))
 
 
 def frac_to_complex(r):
